@@ -652,3 +652,197 @@ Proof.
   destruct (evaluate_expression f1 n s) as [[v|e l|pp| |] s']; try exact I; [|exact H].
   destruct H as [Hk ((_ & _ & _ & Hl) & Hc & _)]. split; [exact Hk|]. split; [exact Hl | exact Hc].
 Qed.
+
+(* ------------------------------------------------------------------ *)
+(* Statements that neither branch nor jump: the same lock step *)
+
+(* storing a value whose kind is the kind of the target's name *)
+Lemma equiet_assign sym (idx : option (list N)) v :
+  kind v = type_of_name sym -> equiet (fun _ : unit => True) (assign_value (mklv sym idx) v).
+Proof.
+  intros Hk s sa HR.
+  assert (Htm : type_matches sym v = true).
+  { unfold type_matches, type_of_name in *. destruct v, (ends_with_dollar sym); cbn in *; congruence. }
+  unfold assign_value. cbn [lv_index lv_sym]. destruct idx as [idx|].
+  2:{ unfold variables_set. rewrite Htm. cbn. split; [|exact I].
+      apply (R_ext s); try reflexivity; [exact HR|].
+      apply caps_set_variables; [apply HR|]. apply typed_alist_set; [apply HR | exact Htm]. }
+  pose proof (caps_arrays_set sym idx v) as G.
+  unfold bind at 1.
+  destruct (maybe_warn_undeclared_array sym s) as [r1 s1] eqn:E1.
+  assert (HR1 : r1 = Ok tt /\ R s1 sa).
+  { revert E1. unfold maybe_warn_undeclared_array, warn, bind, get, get_line_number, push_output, modify, ret. cbn [fst snd].
+    destruct (enable_warnings s && negb (alist_has sym (arrays s))); [destruct (enable_warnings s)|];
+      intros E; injection E as <- <-; (split; [reflexivity|]);
+      (apply (R_ext s); try reflexivity; [exact HR|]; apply (caps_inv_ext s); try reflexivity; apply HR). }
+  destruct HR1 as [-> HR1].
+  specialize (G s1). unfold inv_rel in G.
+  destruct (arrays_set sym idx v s1) as [r2 s2] eqn:E2. cbn [snd] in G.
+  assert (Hcaps2 : caps_inv s2) by (apply G; apply HR1).
+  revert E2. unfold arrays_set. rewrite Htm. cbn [negb]. unfold maybe_create_default_array.
+  unfold bind at 1. unfold bind at 1. unfold get at 1. cbn [fst snd].
+  assert (Hfin : forall (sx : interp) rx,
+            R sx sa ->
+            (ars <- get arrays ;;
+             match alist_get sym ars with
+             | None => panic PArrayUnwrap
+             | Some a =>
+                 if negb (Bool.eqb (ar_str a) (match v with VStr _ => true | VNum _ => false end))
+                 then fail ETypeMismatch
+                 else
+                   i <- lift_res (array_linear_index a idx) ;;
+                   if Nat.ltb (N.to_nat i) (length (ar_cells a))
+                   then modify (fun s0 => set_arrays
+                          (alist_set sym (mkarr (ar_str a) (ar_dims a) (list_update (ar_cells a) (N.to_nat i) v)) (arrays s0)) s0)
+                   else panic PCellIndex
+             end) sx = (rx, s2) ->
+            match rx with
+            | Ok _ => R s2 sa /\ True
+            | Err er _ => benign er
+            | _ => True
+            end).
+  { intros sx rx HRx. unfold bind at 1, get at 1. cbn [fst snd].
+    destruct (alist_get sym (arrays sx)) as [a|] eqn:Ea; [|intros E; inversion E; exact I].
+    assert (Hok : arr_ok sym a).
+    { destruct HRx as (_ & (_ & _ & _ & _ & _ & Ka) & _). apply (Ka sym a). apply alist_get_In. exact Ea. }
+    destruct Hok as (_ & _ & _ & Hs & _).
+    assert (Hb : Bool.eqb (ar_str a) (match v with VStr _ => true | VNum _ => false end) = true).
+    { rewrite Hs. unfold type_of_name in Hk. destruct v, (ends_with_dollar sym); cbn in *; congruence. }
+    rewrite Hb. cbn [negb]. unfold lift_res, bind. cbn [fst snd].
+    destruct (array_linear_index a idx) as [i|er l|pp| |] eqn:Ei; try (intros E; inversion E; exact I).
+    - destruct (Nat.ltb (N.to_nat i) (length (ar_cells a))); intros E; inversion E; subst; [|exact I].
+      split; [|exact I]. apply (R_ext sx); try reflexivity; [exact HRx | exact Hcaps2].
+    - intros E; inversion E; subst.
+      unfold array_linear_index in Ei. destruct (negb (Nat.eqb (length idx) (length (ar_dims a)))); [inversion Ei; exact I|].
+      destruct (linear_index idx (ar_dims a) 0 1); inversion Ei. exact I. }
+  destruct (alist_has sym (arrays s1)) eqn:Eh.
+  - cbn [ret fst snd]. intros E. exact (Hfin s1 r2 HR1 E).
+  - unfold lift_res, bind at 1. cbn [fst snd].
+    destruct (array_create_value sym (repeat DEFAULT_ARRAY_SIZE (length idx))) as [a0|er l|pp| |] eqn:Ec;
+      try (intros E; inversion E; subst; exact I).
+    2:{ intros E; inversion E; subst. exact (array_create_benign _ _ _ _ Ec). }
+    unfold modify. cbn [fst snd]. intros E.
+    apply (Hfin (set_arrays (alist_set sym a0 (arrays s1)) s1) r2); [|exact E].
+    apply (R_ext s1); try reflexivity; [exact HR1|].
+    apply caps_set_arrays; [apply HR1|]. apply arrays_ok_set; [apply HR1|].
+    apply (array_create_value_ok _ _ _ Ec).
+Qed.
+
+Lemma sound_then_quiet {A B B'} (P : A -> B' -> Prop) (m : M A) (f : A -> M B) (a : MA B') :
+  sound P m a -> (forall x, equiet (fun _ => True) (f x)) -> sound (fun _ _ => True) (bind m f) a.
+Proof.
+  intros Hm Hf s sa acc HR. specialize (Hm s sa acc HR). unfold bind.
+  destruct (a (sa, acc)) as [[y|? ?|?| |] [sa1 acc1]]; try exact I.
+  destruct (m s) as [[x|e l|pp| |] s1]; try exact I; [|exact Hm].
+  destruct Hm as [_ HR1]. specialize (Hf x s1 sa1 HR1).
+  destruct (f x s1) as [[z|e l|pp| |] s2]; try exact I; [|exact Hf].
+  destruct Hf as [HR2 _]. split; [exact I | exact HR2].
+Qed.
+
+Definition orel' {A B} (x : option A) (y : option B) : Prop :=
+  match x, y with Some _, Some _ => True | None, None => True | _, _ => False end.
+
+Section StmtLock.
+  Variables f1 f2 nest : nat.
+
+  Let expr1 : M value := evaluate_expression f1 nest.
+  Let aexpr2 : MA vtype := analyze_expression f2 nest.
+
+  Lemma sound_expr : sound K expr1 aexpr2.
+  Proof. apply expression_check_sound. Qed.
+
+  Lemma sound_optional_index : sound orel' (parse_optional_array_index f1 nest) (an_optional_array_index f2 nest).
+  Proof.
+    unfold parse_optional_array_index, an_optional_array_index.
+    apply (sound_bind eq); [apply sound_cursor, cp_peek_is|]. intros p p' <-.
+    destruct p; cbn [negb].
+    - apply (sound_bind (fun _ _ => True)); [apply sound_array_index; apply sound_expr|]. intros i n _.
+      apply sound_ret. exact I.
+    - apply sound_ret. exact I.
+  Qed.
+
+  (* v = e  /  v(i, j) = e *)
+  Lemma sound_assignment sym :
+    sound (fun _ _ => True) (evaluate_assignment_statement f1 nest sym) (an_assignment f2 nest sym).
+  Proof.
+    unfold evaluate_assignment_statement, an_assignment.
+    apply (sound_right (fun _ => True)); [apply aquiet_prev_loc|]. intros l _.
+    apply (sound_bind orel'); [apply sound_optional_index|]. intros idx ar Hia.
+    apply (sound_bind eq); [apply sound_cursor, cp_expect|]. intros _ _ _.
+    apply (sound_bind K); [apply sound_expr|]. intros v t Hk. unfold K in Hk.
+    unfold an_assign. cbn [alv_sym alv_loc].
+    apply (sound_right (fun _ => True)); [apply aquiet_log|]. intros _ _.
+    (* the check decides: only when the kinds agree does the interpreter store *)
+    intros s sa acc HR. unfold abind, check.
+    destruct (vtype_eqb (type_of_name sym) t) eqn:Ev; [|exact I].
+    assert (Ht : t = type_of_name sym) by (destruct t, (type_of_name sym); cbn in Ev; congruence).
+    cbn. pose proof (equiet_assign sym idx v ltac:(congruence) s sa HR) as H.
+    destruct (assign_value {| lv_sym := sym; lv_index := idx |} v s) as [[u|e l0|pp| |] s1]; try exact I; [|exact H].
+    destruct H as [HR1 _]. split; [exact I | exact HR1].
+  Qed.
+
+  Lemma sound_let : sound (fun _ _ => True) (evaluate_let_statement f1 nest) (an_let f2 nest).
+  Proof.
+    unfold evaluate_let_statement, an_let.
+    apply (sound_bind eq); [apply sound_cursor, cp_next_token|]. intros t t' <-.
+    destruct t as [t|]; [|apply sound_afail].
+    destruct t; try apply sound_afail. apply sound_assignment.
+  Qed.
+
+  (* PRINT: every item an expression the checker accepted *)
+  Lemma sound_print : sound (fun _ _ => True) (evaluate_print_statement f1 nest) (an_print f2 nest).
+  Proof.
+    unfold evaluate_print_statement, an_print.
+    apply (sound_then_quiet (fun _ _ => True)).
+    - apply (sound_repeat (fun _ _ => True)); [|exact I]. intros [semi text] [] _.
+      apply (sound_bind eq); [apply sound_cursor, cp_peek|]. intros t t' <-.
+      destruct t as [t|]; [|apply sound_ret; exact I].
+      destruct t;
+        try (apply (sound_bind K); [apply sound_expr|]; intros v ty _; apply sound_ret; exact I);
+        try (apply sound_ret; exact I);
+        try (apply (sound_bind eq); [apply sound_cursor, cp_next_token|]; intros ? ? _; apply sound_ret; exact I).
+    - intros [semi text] s sa HR. cbn. split; [|exact I].
+      apply (R_ext s); try reflexivity; [exact HR|]. apply (caps_inv_ext s); try reflexivity. apply HR.
+  Qed.
+
+  (* DIM *)
+  Lemma sound_parse_lvalue :
+    sound (fun lv alv => lv_sym lv = alv_sym alv) (parse_lvalue f1 nest) (an_parse_lvalue f2 nest).
+  Proof.
+    unfold parse_lvalue, an_parse_lvalue.
+    apply (sound_bind eq); [apply sound_cursor, cp_next_token|]. intros t t' <-.
+    destruct t as [t|]; [|apply sound_afail].
+    destruct t; try apply sound_afail.
+    apply (sound_right (fun _ => True)); [apply aquiet_prev_loc|]. intros l _.
+    apply (sound_bind orel'); [apply sound_optional_index|]. intros idx ar _.
+    apply sound_ret. reflexivity.
+  Qed.
+End StmtLock.
+
+(* spelled out for the two commonest statements *)
+Definition stmt_ok (r : res unit * interp) : Prop :=
+  match r with
+  | (Ok _, s') => caps_inv s'
+  | (Err e _, _) => benign e
+  | _ => True
+  end.
+
+Corollary checked_assignment_does_not_fail_on_types : forall f1 f2 nest sym s sa acc sa' acc',
+  R s sa -> an_assignment f2 nest sym (sa, acc) = (Ok tt, (sa', acc')) ->
+  stmt_ok (evaluate_assignment_statement f1 nest sym s).
+Proof.
+  intros f1 f2 nest sym s sa acc sa' acc' HR Ha.
+  pose proof (sound_assignment f1 f2 nest sym s sa acc HR) as H. rewrite Ha in H. unfold stmt_ok.
+  destruct (evaluate_assignment_statement f1 nest sym s) as [[u|e l|pp| |] s']; try exact I; [|exact H].
+  destruct H as [_ (_ & Hc & _)]. exact Hc.
+Qed.
+
+Corollary checked_print_does_not_fail_on_types : forall f1 f2 nest s sa acc sa' acc',
+  R s sa -> an_print f2 nest (sa, acc) = (Ok tt, (sa', acc')) ->
+  stmt_ok (evaluate_print_statement f1 nest s).
+Proof.
+  intros f1 f2 nest s sa acc sa' acc' HR Ha.
+  pose proof (sound_print f1 f2 nest s sa acc HR) as H. rewrite Ha in H. unfold stmt_ok.
+  destruct (evaluate_print_statement f1 nest s) as [[u|e l|pp| |] s']; try exact I; [|exact H].
+  destruct H as [_ (_ & Hc & _)]. exact Hc.
+Qed.
